@@ -21,7 +21,7 @@ ASSUMPTIONS = ['stop histories are sequential (one client): with a concurrent st
 PROBES = ['start_while_alive', 'restart_after_stop', 'overlapping_starts', 'delivery_thread_killed_by_subscriber_fault']
 PLAN = {
   'quick': {'strata': {'sequential': 2500, 'concurrent-start': 2500, 'half-alive': 1000}, 'wall_s': 300, 'chunk': 50, 'min_conclusive': 1000},
-  'thorough': {'strata': {'sequential': 60000, 'concurrent-start': 60000, 'half-alive': 30000}, 'wall_s': 900, 'chunk': 100, 'min_conclusive': 10000},
+  'thorough': {'strata': {'sequential': 60000, 'concurrent-start': 60000, 'half-alive': 30000}, 'wall_s': 900, 'chunk': 100, 'min_conclusive': 1000},
 }
 
 
@@ -31,7 +31,7 @@ def generate(seed, stratum, tier):
   if stratum == 'sequential':
     ops = []
     n_ao = 0
-    for _ in range(rng.randrange(2, 12)):
+    for _ in range(common.span(rng, 2, 12, common.deep(rng), 3)):
       k = rng.choices(['start', 'stop', 'is_alive', 'clear', 'ao_start', 'ao_wake', 'subscribe', 'publish'],
                       weights=[5, 4, 3, 1, 2, 2, 1, 1])[0]
       if k == 'ao_start':
